@@ -304,7 +304,7 @@ func (r *checkRun) execute() int {
 			fmt.Printf("  violated: %s label=%s %s inputs=%s %s\n", c.h.fn.Name(), c.v.Label, c.v.Detail, compact(c.v.Model), detail)
 			exit = 1
 		} else if !r.noNative {
-			unconfirmed = append(unconfirmed, fmt.Sprintf("%s/%s did not reproduce natively (%s %s) inputs=%s", c.h.fn.Name(), c.v.Label, c.v.Detail, detail, compact(c.v.Model)))
+			unconfirmed = append(unconfirmed, fmt.Sprintf("%s/%s did not reproduce natively (%s %s) inputs=%s trace=%v", c.h.fn.Name(), c.v.Label, c.v.Detail, detail, compact(c.v.Model), lastN(c.v.Trace, 3)))
 		} else {
 			fmt.Printf("  candidate (native check skipped): %s label=%s %s inputs=%s\n", c.h.fn.Name(), c.v.Label, c.v.Detail, compact(c.v.Model))
 		}
@@ -506,4 +506,11 @@ func trimTo(s string, n int) string {
 		return s[:n]
 	}
 	return s
+}
+
+func lastN(ss []string, n int) []string {
+	if len(ss) > n {
+		return ss[len(ss)-n:]
+	}
+	return ss
 }
